@@ -219,6 +219,40 @@ def _known_confirm(prop, prev=None):
         if i == 'K4' and prop == 'C02':
             a = AnsiString('\x1b[>4;2mX')
             return a.base_str == 'X' and [str(x) for x in a.ansi_settings_at(0)] == ['2']
+        if i == 'K6':
+            import sys
+            from ansi_string import AnsiSetting
+            from ansi_string.ansi_parsing import parse_graphic_sequence, settings_to_dict
+            n = sys.get_int_max_str_digits()
+            if not n:
+                return False
+            z = '0' * n + '1'
+            if prop == 'C15':
+                return AnsiSetting(z).parsable is False and AnsiSetting(z[1:]).parsable is True
+            if prop == 'C18':
+                return settings_to_dict(parse_graphic_sequence(z)) == {} and len(settings_to_dict(parse_graphic_sequence(z[1:]))) == 1
+            if prop == 'C02':
+                return AnsiString('\x1b[' + z + 'mX').ansi_settings_at(0) == [] and [str(x) for x in AnsiString('\x1b[' + z[1:] + 'mX').ansi_settings_at(0)] == ['1']
+            if prop == 'C03':
+                s_ = AnsiString('X', AnsiSetting(z))
+                return [str(x) for x in s_.ansi_settings_at(0)] == [z] and AnsiString(str(s_)).ansi_settings_at(0) == []
+            if prop == 'C19':
+                import ansi_string.ansi_string as _m
+                try:
+                    _m.cursor_up_str(10 ** n)
+                    return False
+                except ValueError:
+                    return len(_m.cursor_up_str(10 ** (n - 1))) == n + 3
+        if i == 'K7':
+            from ansi_string.ansi_parsing import parse_graphic_sequence, settings_to_dict
+            if prop == 'C18':
+                return {k.name: str(v) for k, v in settings_to_dict(parse_graphic_sequence('20;23')).items()} == {'FONT_TYPE': '20'}
+            if prop == 'C02':
+                return [str(x) for x in AnsiString('\x1b[20mA\x1b[23mB\x1b[m').ansi_settings_at(1)] == ['20']
+            if prop == 'C01':
+                x = AnsiString('ab', 'gothic_font')
+                x.apply_formatting('italic', 0, 1)
+                return str(x) == '\x1b[20;3ma\x1b[23mb\x1b[m' and [str(c) for c in x.ansi_settings_at(1)] == ['20']
         return prev(entry, term) if prev else None
     return confirm
 
@@ -226,6 +260,11 @@ def _known_confirm(prop, prev=None):
 PROPS['C15']['confirm_known'] = _known_confirm('C15')
 PROPS['C06']['confirm_known'] = _known_confirm('C06')
 PROPS['C02']['confirm_known'] = _known_confirm('C02')
+PROPS['C18']['confirm_known'] = _known_confirm('C18')
+PROPS['C19']['confirm_known'] = _known_confirm('C19')
+PROPS['C01']['confirm_known'] = _known_confirm('C01', PROPS['C01']['confirm_known'])
+PROPS['C03']['confirm_known'] = _known_confirm('C03', PROPS['C03']['confirm_known'])
 
 
 PROPS['C11'] = _with_extra(PROPS['C11'], direct2.c11_assign_ansistr_run)
+PROPS['C07'] = _with_extra(PROPS['C07'], direct2.c07_esc_run)
